@@ -935,7 +935,6 @@ def _replay_codec(args):
 def ob_codec_tensor(dname, seed):
     def fn():
         dtype = _DTYPES[dname]
-        gen = torch.Generator().manual_seed(seed + 5)
         n, observed = 0, []
         for shape in _SHAPES:
             for nn in ((False, True) if dtype.is_floating_point else (False,)):
@@ -1402,8 +1401,6 @@ def ob_guard_foreign():
 def ob_guard_transient():
     def fn():
         from torchtree.inference.mcmc.mcmc import MCMC
-        from torchtree.inference.mcmc.operator import MCMCOperator
-        tr = _transient(MCMCOperator)
         src = inspect.getsource(MCMC.run)
         i_step, i_acc, i_rej, i_save = (src.find(x) for x in ("operator.step()", "operator.accept()", "operator.reject()", "self.save_full_state()"))
         if min(i_step, i_acc, i_rej, i_save) < 0 or not (i_step < i_acc < i_save and i_step < i_rej < i_save):
